@@ -127,7 +127,7 @@ Qed.
 Theorem decimal_upscale_inverse : forall s1 p1 s2 p2 x y, s1 <= s2 -> Z.abs x < 10 ^ p1 ->
   dec_dec_spec s1 p2 s2 x = Some y -> dec_dec_spec s2 p1 s1 y = Some x.
 Proof.
-  intros s1 p1 s2 p2 x y Hs Hx H. unfold dec_dec_spec, rescale_spec in *. cbv zeta in *.
+  intros s1 p1 s2 p2 x y Hs Hx H. unfold dec_dec_spec, rescale_spec in *. cbv beta zeta in *.
   destruct (Z.leb_spec s1 s2); [|lia].
   destruct (in_prec p2 (x * 10 ^ (s2 - s1))); [|discriminate]. inversion H; subst y.
   destruct (Z.leb_spec s2 s1).
